@@ -27,7 +27,7 @@ import (
 
 type faultPlan struct {
 	Tree  int    `json:"tree"`
-	Class string `json:"class"` // ssend srecv rsend rrecv cancelS cancelR walk read hasher notify sigkill vanish rootfail fanout
+	Class string `json:"class"` // ssend srecv rsend rrecv cancelS cancelR walk read hasher notify sigkill vanish rootfail earlyfin fanout
 	Mode  string `json:"mode,omitempty"`
 	K     int    `json:"k"`
 	J     int    `json:"j,omitempty"`
@@ -125,6 +125,16 @@ func c04Plans(tier string) []faultPlan {
 	// not list it. Prior destination in sync, so that "an empty tree" shows.
 	for t := 0; t < trees; t++ {
 		out = append(out, mkPlan(1000+t, "rootfail", "gone", 0, 0), mkPlan(1000+t, "rootfail", "perm", 0, 0), mkPlan(t, "rootfail", "gone", 1, 0), mkPlan(t, "rootfail", "perm", 1, 0))
+	}
+	// a sender that says FIN although nobody asked it to, after k entries of
+	// its listing, and then goes away: the receiver's stream just ends
+	for t := 0; t < trees; t++ {
+		for k := 0; k < 10; k++ {
+			pl := mkPlan(t, "earlyfin", "", k, 0)
+			out = append(out, pl)
+			pl.KeepCtx = true
+			out = append(out, pl)
+		}
 	}
 	for i := 0; i < fan; i++ {
 		pl := mkPlan(i, "fanout", []string{"rsend-sticky", "cancelR", "cancelS", "srecv-sticky", "ssend-sticky", "rrecv-eof", "notify-backlog", "hasher-backlog", "cancelR-backlog", "teardown-backlog"}[i%10], 0, (i/10)%2)
@@ -254,6 +264,9 @@ func c04Run(c *core.Ctx) *core.Result {
 	}
 	if plan.Class == "rootfail" {
 		return c04RootFail(c, r, plan, src, dest)
+	}
+	if plan.Class == "earlyfin" {
+		return c04EarlyFin(c, r, plan, src, dest)
 	}
 	obs := &c04Obs{}
 	sf := newSynthFS(src)
@@ -436,6 +449,37 @@ func c04RootFail(c *core.Ctx, r *core.Result, plan faultPlan, src *tree.Tree, de
 	return r
 }
 
+// c04EarlyFin: the peer sends the first k entries of its listing, then a FIN
+// the receiver never asked for, and its call ends (with an error of its own,
+// which the transport shows the receiver as a plain end of stream).
+func c04EarlyFin(c *core.Ctx, r *core.Result, plan faultPlan, src *tree.Tree, dest string) *core.Result {
+	sts, err := walkStats(newSynthFS(src), "")
+	if err != nil {
+		r.Inconclusive = "listing: " + err.Error()
+		return r
+	}
+	k := plan.K
+	if k > len(sts) {
+		k = len(sts)
+	}
+	so := syncOpt{Cfg: wire.Config{Cap: []int{0, 1, 8}[plan.K%3], TeardownKeepsContexts: plan.KeepCtx, StreamIgnoresContexts: plan.KeepCtx}, Dest: dest, TeardownWhenStuck: true, Timeout: 90 * time.Second, EOFOnSendError: true,
+		SendFn: func(ctx context.Context, s fsutil.Stream) error {
+			for _, st := range sts[:k] {
+				if err := s.SendMsg(&types.Packet{Type: types.PACKET_STAT, Stat: st}); err != nil {
+					return err
+				}
+			}
+			if err := s.SendMsg(&types.Packet{Type: types.PACKET_FIN}); err != nil {
+				return err
+			}
+			return errInjected
+		}}
+	res := runSync(so)
+	r.Count("unrequested_fin_then_end_of_stream", 1)
+	c04Judge(c, r, plan, res, src, nil, dest, true)
+	return r
+}
+
 func c04Vanish(c *core.Ctx, r *core.Result, plan faultPlan, src *tree.Tree, dest string) *core.Result {
 	sd := filepath.Join(c.Dir, "src-vanish")
 	if os.Mkdir(sd, 0755) != nil || tree.Materialise(sd, src) != nil {
@@ -529,7 +573,14 @@ func c04Judge(c *core.Ctx, r *core.Result, plan faultPlan, res *syncRes, src, vi
 	// (b') once a call has returned the stream belongs to the caller again:
 	// no goroutine the call started may still begin an operation on it
 	// (checked after the leak check has seen those goroutines end)
-	for _, e := range []*wire.End{res.Pair.S, res.Pair.R} {
+	// Send waits for everything it started (nothing of it may even be in
+	// flight when it returns)
+	if n, late := res.Pair.S.InFlightAtReturn(), res.Pair.S.LateOps(); res.SendDone && (n > 0 || len(late) > 0) {
+		d := det()
+		d["late_operations"] = late
+		r.ViolateD("sender-stream-in-use-after-return", d, "%s: when Send returned %d stream operation(s) of its goroutines were still in flight on its endpoint and %d more were started afterwards", desc, n, len(late))
+	}
+	for _, e := range []*wire.End{res.Pair.R} {
 		if late := e.LateOps(); len(late) > 0 {
 			d := det()
 			d["late_operations"] = late
